@@ -230,6 +230,10 @@ pub fn run_plan(c: &mut Collector, o: &mut dyn Oracle, seed: u64, shard: u64, ns
     if plan.crafted_ep_stride > 0 {
         workload::ep_family(shard, nshards, plan.crafted_ep_stride, &mut crafted);
     }
+    if plan.crafted_ep_stride > 0 {
+        let mut rng = Rng::new(0xF20E + shard);
+        workload::ep_frozen_family(&mut rng, shard, nshards, plan.crafted_ep_stride.max(8), &mut crafted);
+    }
     if plan.crafted_other {
         let mut all = Vec::new();
         workload::castle_family(&mut all);
